@@ -271,6 +271,38 @@ pub fn run(mut run: Run) -> i32 {
             }
         }
     }
+    // degenerate and empty geometries of every type (C17 speaks about every geometry, and only compares with plain relate): zero-length Line,
+    // flat Rect, collinear and single-point Triangle, single-point and flat Polygon, one-coordinate LineString, empty geometries, empty members
+    {
+        use geo::{GeometryCollection, Line, LineString, MultiLineString, MultiPoint, MultiPolygon, Point, Polygon, Rect, Triangle};
+        let e = AG::Pts(vec![]);
+        let mut deg: Vec<Geometry<f64>> = vec![
+            Geometry::Line(Line::new(c((1, 1)), c((1, 1)))),
+            Geometry::Rect(Rect::new(c((0, 1)), c((2, 1)))),
+            Geometry::Rect(Rect::new(c((1, 0)), c((1, 2)))),
+            Geometry::Rect(Rect::new(c((2, 2)), c((2, 2)))),
+            Geometry::Triangle(Triangle(c((0, 0)), c((1, 1)), c((2, 2)))),
+            Geometry::Triangle(Triangle(c((0, 2)), c((0, 2)), c((0, 2)))),
+            Geometry::Triangle(Triangle(c((0, 0)), c((2, 0)), c((2, 0)))),
+            Geometry::Polygon(Polygon::new(LineString::new(vec![c((1, 0)), c((1, 0)), c((1, 0)), c((1, 0))]), vec![])),
+            Geometry::Polygon(Polygon::new(LineString::new(vec![c((0, 0)), c((2, 1)), c((0, 0))]), vec![])),
+            Geometry::LineString(LineString::new(vec![c((2, 0))])),
+            Geometry::LineString(LineString::new(vec![c((0, 1)), c((0, 1)), c((0, 1))])),
+            Geometry::LineString(LineString::new(vec![])),
+            Geometry::Polygon(Polygon::new(LineString::new(vec![]), vec![])),
+            Geometry::MultiPoint(MultiPoint(vec![])),
+            Geometry::MultiLineString(MultiLineString(vec![])),
+            Geometry::MultiPolygon(MultiPolygon(vec![])),
+            Geometry::GeometryCollection(GeometryCollection(vec![])),
+            Geometry::MultiLineString(MultiLineString(vec![LineString::new(vec![]), LineString::new(vec![c((0, 0)), c((2, 2))])])),
+            Geometry::MultiPoint(MultiPoint(vec![Point(c((1, 2))), Point(c((1, 2)))])),
+        ];
+        let nested = Geometry::GeometryCollection(GeometryCollection(vec![deg[1].clone(), Geometry::GeometryCollection(GeometryCollection(vec![])), deg[4].clone()]));
+        deg.push(nested);
+        for g in deg {
+            shapes.push(Shape::new(e.clone(), g, "DEGEN"));
+        }
+    }
     let n = shapes.len();
     run.stage("pairs-reuse", n, |ia, acc| {
         let a = &shapes[ia];
